@@ -287,7 +287,27 @@ def show_path(p):
     return ''.join(out)
 
 
+SHOW_BUDGET = 6000
+_budget = [None]
+
+
 def show(t, names=None):
+    """printer with an output budget: terms are DAGs with heavy sharing, a full print can be exponential"""
+    top = _budget[0] is None
+    if top:
+        _budget[0] = SHOW_BUDGET
+    try:
+        if _budget[0] <= 0:
+            return '…'
+        r = _show(t, names)
+        _budget[0] -= len(r) if not isinstance(t, tuple) or not t or t[0] in ('num', 'bool', 'unit', 'str', 'pre', 'sym', 'fresh', 'loopvar', 'iterpos', 'bound', 'ref') else 8
+        return r
+    finally:
+        if top:
+            _budget[0] = None
+
+
+def _show(t, names=None):
     if not isinstance(t, tuple) or not t:
         return str(t)
     op = t[0]
